@@ -197,6 +197,7 @@ FaultDocs ==
   \cup { Doc1(<<FS("", "a", <<Inl(c, <<F("", "name"), FS("", "self", <<F("", "n")>>)>>), F("", "n")>>)>>) : c \in {"", "A"} }
   \cup { DocF(<<FS("", top, <<Spr("F"), F("q", "n")>>)>>, <<Frg("F", "A", <<F("", "name"), FS("", "kids", <<Spr("G")>>)>>), Frg("G", "A", <<F("", "n")>>)>>) : top \in {"a", "items"} }
   \cup { Doc1(<<F("", "grid"), F("", "bad"), FS("", "a", <<F("", "boom"), F("", "name")>>)>>) }
+  \cup { Doc1(<<FS("", top, <<F("", "name"), F("h", "half")>>), F("", "title")>>) : top \in {"a", "items"} }
   \cup { Doc1(<<FS("", "a", <<FS("", "peer", <<FS("", "peer", <<F("", "boom"), FS("s", "self", <<F("", "name")>>)>>)>>)>>)>>) }
 CallSites(doc) == LET r == Response(UExec, doc, "", NoVars, {}) IN { <<r.calls[i].node, r.calls[i].field>> : i \in DOMAIN r.calls }
 FamFaults1 == { Case("fault1", d, "", NoVars, {site}) : <<d, site>> \in UNION { {d} \X CallSites(d) : d \in FaultDocs } }
